@@ -437,7 +437,7 @@ func (g *TmplGen) GenVars(r *Rand) map[string]string {
 		if r.Bool(0.15) {
 			continue // undefined
 		}
-		m[n] = r.Pick([]string{"", "v", "World", "a \"q\" / b\n", "1", "t\t" + fmt.Sprint(r.Intn(1 << 30)), "w" + fmt.Sprint(r.Intn(1000))})
+		m[n] = r.Pick([]string{"", "v", "World", "a \"q\" / b\n", "1", "t\t" + fmt.Sprint(r.Intn(1<<30)), "w" + fmt.Sprint(r.Intn(1000))})
 	}
 	return m
 }
